@@ -103,6 +103,11 @@ func (c *c16Case) run(idx int, rng *rand.Rand) (string, error) {
 	}
 	from := fmt.Sprintf("from%d@x.test", idx)
 	to := []string{fmt.Sprintf("to%d@x.test", idx), "second@x.test"}
+	if idx%3 == 1 {
+		// every atext character is allowed in a local part, '%' (the percent hack) and the rest
+		from = "fr%om%%x+tag=" + fmt.Sprint(idx) + "!#$&'*/?^_`{|}~@x.test"
+		to = []string{"user%host" + fmt.Sprint(idx) + "@relay.test", "100%@x.test"}
+	}
 	res := make(chan string, 1)
 	go func() {
 		if c.Prior != "" {
